@@ -15,23 +15,8 @@ from .c19 import read_all
 
 SHARDS = {'quick': 4, 'thorough': 16, 'quick_timeout': 900, 'thorough_timeout': 3600}
 
-TRACE = []
-
-
-def install(ctx):
-    from sedfitter.fit_info import FitInfoFile
-
-    def write_pre(self, info):
-        ctx.event('FitInfoFile.write:pre')
-        TRACE.append((os.path.abspath(self._handle.name), info.source.name))
-        return True
-
-    probe.attach(FitInfoFile, 'write', require=write_pre)
-
-
 def run(ctx):
     rng = ctx.rng
-    install(ctx)
     from sedfitter import filter_output
     from sedfitter.fit_info import FitInfoFile
     ctx.rule = ('inputs with 1..10 sources built from real fits (n_data 1..8; best chi^2 incl. ties, huge, inf, NaN), thresholds mid-way between attained '
@@ -41,7 +26,7 @@ def run(ctx):
                'a zero-byte output file means no records')
     ctx.require_events('split:checked', 'metadata:checked')
     ctx.require_regimes('all-good', 'all-bad', 'mixed', 'criterion:chi', 'criterion:cpd', 'names:auto', 'names:explicit', 'input:file', 'input:list',
-                        'best:nan', 'best:inf', 'n_data=1', 'flag-4-points', 'nan-suffix', 'names:mixed')
+                        'best:nan', 'best:inf', 'n_data=1', 'flag-4-points', 'nan-suffix', 'names:mixed', 'outputs:re-used-names')
     d = ctx.newdir('c18')
     n_models, nb = 5, 8
     names = gen.model_names(rng, n_models, 'num')
@@ -134,14 +119,24 @@ def run(ctx):
             kw = dict(output_good=g, output_bad=b)
         inp = path if form == 'file' else list(infos)
         wit = dict(n_sources=n_src, criterion=crit, threshold=thr, best=best, n_data=ndat, input=form, auto_names=auto)
-        del TRACE[:]
+        if ic % 3 == 0:
+            # the same output names were already used by an earlier filtering of the same results with another threshold
+            # (e.g. everything good, everything bad): what that run left behind must not survive
+            other = [c for c in cand if c != thr] + [float(np.nanmax(np.where(np.isfinite(q), q, 0))) * 4 + 7.0, 1e-300]
+            thr0 = float(other[int(rng.integers(len(other)))])
+            try:
+                filter_output(inp, **kw, **{crit: thr0})
+                ctx.regime('outputs:re-used-names')
+                wit['earlier_threshold_same_names'] = thr0
+            except Exception as exc:
+                ctx.violation('filter_output:raised:%s' % type(exc).__name__, 'filter_output raised: %r' % (exc,), dict(wit, threshold=thr0))
+                continue
         try:
             with effects.trace() as tr:
                 filter_output(inp, **kw, **{crit: thr})
         except Exception as exc:
             ctx.violation('filter_output:raised:%s' % type(exc).__name__, 'filter_output raised: %r' % (exc,), wit)
             continue
-        trace = list(TRACE)
         wrote = sorted(set(os.path.abspath(p) for p in tr.produced(under=d)))
         third = []
         for x in wrote:
